@@ -80,6 +80,9 @@ func c08Run(c *fw.Ctx) {
 		{"garbage", func() string { return "Z2FyYmFnZS1jb2Rl" }, false},
 		{"genuine", func() string { return seal(mk(future, future)) }, true},
 		{"bit-flipped", func() string { v := []byte(seal(mk(future, future))); v[10] ^= 1; return string(v) }, false},
+		{"genuine-with-line-break-inserted", func() string { v := seal(mk(future, future)); return v[:20] + "\r\n" + v[20:] }, false},
+		{"genuine-with-trailing-newline", func() string { return seal(mk(future, future)) + "\n" }, false},
+		{"genuine-with-padding-appended", func() string { return seal(mk(future, future)) + "=" }, false},
 		{"sealed-under-cookie-key", func() string { return other }, false},
 		{"genuine-token-deadline-expired", func() string { return seal(mk(past, future)) }, false},
 		{"genuine-lifetime-expired", func() string { return seal(mk(future, past)) }, false},
@@ -264,7 +267,7 @@ func init() {
 		ID:    "C08",
 		Level: "exploration",
 		Rule: "full product on the unmodified NewAuthenticatorMux: endpoint {redeem, refresh, profile, validate} x method {GET, POST, PUT, HEAD} x client_id placement {absent, query right/wrong, body right/wrong, body wrong + query right, body right + query wrong, duplicated wrong-then-right, empty} " +
-			"x secret placement {absent, body right/wrong, X-Client-Secret right/wrong, query right, prefix of the secret, secret plus a suffix, empty, body wrong + header right} x code (redeem only) {absent, garbage, genuine, bit-flipped, sealed under the cookie key, genuine with expired token deadline, genuine with expired lifetime}; " +
+			"x secret placement {absent, body right/wrong, X-Client-Secret right/wrong, query right, prefix of the secret, secret plus a suffix, empty, body wrong + header right} x code (redeem only) {absent, garbage, genuine, bit-flipped, genuine with a line break inserted / a trailing newline / padding appended, sealed under the cookie key, genuine with expired token deadline, genuine with expired lifetime}; " +
 			"oracle: a request that nowhere presents the right id AND the right secret => status >= 400, none of the session's token/email strings in body or headers, no identity-provider call; /redeem 200 => genuine unexpired code and the JSON is exactly that session's email and tokens; " +
 			"thorough adds methods {DELETE, PATCH, OPTIONS}, body encodings {multipart/form-data, urlencoded bytes labelled application/json}, path forms {trailing slash, default-provider path without the slug, doubled slash}, ids {upper-cased, right plus a space}, secrets {case-swapped, right plus a space, empty body + right header, wrong in query and header, wrong then right in the body}; " +
 			"distinct_nontrivial = distinct (endpoint, method, placements, code, encoding, path form, status, IdP calls)",
